@@ -404,3 +404,61 @@ pub fn check_image_dedup(model: &BTreeMap<u64, Vec<u8>>, image: &[u8], ctx: &mut
     ctx.bump("images_checked", 1);
     Ok(())
 }
+
+// ---------------------------------------------------------------------------------------------
+// bounded exhaustive batch: every history of length <= 5 over a tiny alphabet
+
+pub struct HistoryEnum {
+    pub prop: &'static str,
+}
+
+const ENUM_LEN: u32 = 5;
+
+fn enum_alphabet() -> Vec<Op> {
+    let a = Cont { k: 2, seed: 0, len: 2 };
+    let b = Cont { k: 2, seed: 1, len: 2 };
+    vec![
+        Op::Add { id: 0, c: a },
+        Op::Add { id: 0, c: b },
+        Op::Add { id: 1, c: a },
+        Op::Add { id: 1, c: b },
+        Op::Remove { id: 0 },
+        Op::Remove { id: 1 },
+        Op::SaveReopen { w: Face::Sync, r: Face::Sync, ic: 1 },
+    ]
+}
+
+impl Scenario for HistoryEnum {
+    fn name(&self) -> &'static str {
+        "history-enum"
+    }
+    fn rule(&self) -> String {
+        format!("every history of length 1..={ENUM_LEN} over the alphabet {{add(0|1, A|B), remove(0|1), save+restart+reopen}} (A, B share length and prefix), with a full model cross-check after every operation; enumerated; distinct = distinct histories; all non-trivial")
+    }
+    fn enumerated(&self, _tier: Tier) -> Option<u64> {
+        let k = enum_alphabet().len() as u64;
+        Some((1..=ENUM_LEN).map(|l| k.pow(l)).sum())
+    }
+    fn generate(&self, _rng: &mut Rng, _tier: Tier, run: u64) -> Value {
+        let alpha = enum_alphabet();
+        let k = alpha.len() as u64;
+        let mut r = run;
+        let mut len = 1u32;
+        while r >= k.pow(len) {
+            r -= k.pow(len);
+            len += 1;
+        }
+        let mut ops = Vec::new();
+        for _ in 0..len {
+            ops.push(alpha[(r % k) as usize].clone());
+            r /= k;
+        }
+        to_value(&HistCase { init: None, ops, sched: Sched::plain(), face: Face::Sync, check_every: 1, scramble: run })
+    }
+    fn execute(&self, case: &Value, ctx: &mut Ctx) -> V<()> {
+        History { prop: self.prop }.execute(case, ctx)
+    }
+    fn shrink(&self, case: &Value) -> Vec<Value> {
+        History { prop: self.prop }.shrink(case)
+    }
+}
